@@ -217,7 +217,10 @@ func sync_runtime_notifyListAdd(l *notifyList) uint32 {
 func sync_runtime_notifyListWait(l *notifyList, t uint32) {
 	st := getNotifyState(l)
 	st.mu.Lock()
-	for latomic.LoadUint32(&l.notify) == t {
+	// Wait until ticket t has been notified, i.e. until l.notify has moved past
+	// t (wrap-around aware, as in the Go runtime's notifyList). A ticket ahead
+	// of l.notify must keep waiting; it must not return unnotified.
+	for int32(t-latomic.LoadUint32(&l.notify)) >= 0 {
 		st.cond.Wait(&st.mu)
 	}
 	st.mu.Unlock()
@@ -238,7 +241,9 @@ func sync_runtime_notifyListNotifyOne(l *notifyList) {
 	st.mu.Lock()
 	if latomic.LoadUint32(&l.notify) != latomic.LoadUint32(&l.wait) {
 		latomic.AddUint32(&l.notify, 1)
-		st.cond.Signal()
+		// Waiters are ordered by ticket, and only the one whose ticket was just
+		// passed may proceed: wake all of them so that it re-checks.
+		st.cond.Broadcast()
 	}
 	st.mu.Unlock()
 }
